@@ -39,7 +39,7 @@ SPEC = semprop.Spec(
     programs=programs,
     oracles=("diff",),
     theorems=["C02_fixed_shift_promotion", "C02_refuted_logical_not", "C02_fixed_compare_promotion", "C02_refuted", "C02_operators_correct_repaired", "C02_operators_correct_partial",
-              "C02_repaired_witnesses", "C02_common_type_is_c11"],
+              "C02_repaired_witnesses", "C02_common_type_is_c11", "C02_operator_tables_are_the_compilers"],
     note="exhaustive depth-1 operator x type x type matrix (quick: every 6th), unary / ?: matrix, random trees depth <= 4",
 )
 
